@@ -21,6 +21,7 @@ from vlib import runner
 ID = "C17"
 LEVEL = "exploration"
 EXHAUSTIVE = True
+EXHAUSTIVE_STREAMS = {'all': 'every path of <= N segments x route x root setting (complete)'}
 RULE = ("every path built from <=N segments (N=4 quick, 5 thorough) over {.., ., child, nested, sibling-with-common-prefix, outside, "
         "file-as-directory, empty} + optional final file name, anchored at {root (absolute), tree base (absolute), cwd-relative}, x "
         "route {GET static, POST /script f, /directory f, /directory d, /lineage f} x root setting {absolute, relative}; "
